@@ -3,7 +3,8 @@ import VrlModel.Conversion
 import VrlModel.C35
 
 /-!
-  Line-protocol handler for C35: `c35.parse`, `c35.convert`, `c35.white`, `o.c35.lower`, `o.c35`, `o.c35.nopanic`.
+  Line-protocol handler for C35: `c35.parse`, `c35.convert`, `c35.white`, `o.c35.lower`, `o.c35`, `o.c35.nopanic`,
+  `o.c35.reconv`.
   The third-party primitives of the model (`FloatText`, `Chrono`) are instantiated from the
   observations the harness made by calling core/chrono directly (see harness/src/c35.rs).
 -/
@@ -98,6 +99,14 @@ def chrono (o : Obs) : Chrono PTab where
   parseRfc3339 := fun _ => (o.get "R3").bind instOfString
   parseRfc2822 := fun _ => (o.get "R2").bind instOfString
 
+/-- the instants chrono handed out that the conversion under zone `tz` can reach: the zone's column
+    of every zone-less entry, and every zone-explicit / RFC entry -/
+def obsInstants (o : Obs) (tz : String) : List Inst :=
+  o.flatMap fun (k, v) =>
+    if k.startsWith "N:" then
+      (((ptabOfString v).find? (·.1 == tz)).bind (·.2)).toList
+    else (instOfString v).toList
+
 /-- the only non-ASCII characters whose lowercase contains ASCII characters may contain only
     characters outside the alphabet of the boolean words (`c35.lower` reply check). -/
 def boolAlphabet : List Nat := (wTrue ++ wYes ++ wFalse ++ wNo)
@@ -151,16 +160,23 @@ def handle (op : String) (args : List String) : Option String :=
     else if unamb == "0" || off % 60 != 0 then pure "holds"
     else pure ("fails " ++ showRtClass (C35.rtClass conv))
   | "o.c35.nopanic", [name, bytes, tz, "|", obs, res] => do
-    let name ← charsOfHex name
-    let bytes ← bytesOfHex bytes
+    let _ ← charsOfHex name
+    let _ ← bytesOfHex bytes
     let r ← resultOfString res
     let o := obsOfString obs
     if C35.noPanic r then pure "holds"
     else
-      -- classify with the model: it panics exactly when chrono handed out an instant in D_leap_offset
-      pure (match convertNamed (floatText o) (chrono o) name (tzOfString tz) bytes with
-        | some .panic => "fails nopanic:D_leap_offset"
-        | _ => "fails nopanic:-")
+      -- the model has no panicking path (C35.convert_no_panic). A panic of the implementation is
+      -- named after the fixed class when chrono handed out (for the configured zone, or from a
+      -- zone-explicit parser) an instant in D_leap_offset: a regression of 83f4a4b
+      pure (if (obsInstants o tz).any C35.D_leap_offset then "fails nopanic:D_leap_offset"
+        else "fails nopanic:-")
+  | "o.c35.reconv", [name, _text, tz, "|", v, _inst, _rfc, res, _eq] => do
+    let v ← valueOfString v
+    let r ← resultOfString res
+    let name ← charsOfHex name
+    let _ ← Conversion.parse name (tzOfString tz)
+    if C35.roundTripOK v r then pure "holds" else pure "fails reconv:-"
   | _, _ => none
 
 end Driver.C35
